@@ -68,7 +68,7 @@ impl EdgeCounter {
 }
 
 pub type NodeGc<'gc> = Gc<'gc, RefLock<NodeData<'gc>>>;
-pub type LeafGc<'gc> = Gc<'gc, RefLock<LeafData>>;
+pub type LeafGc<'gc> = Gc<'gc, LeafData>;
 pub type LockGc<'gc> = Gc<'gc, Lock<Option<Any<'gc>>>>;
 pub type OnceGc<'gc> = Gc<'gc, OnceLock<Any<'gc>>>;
 pub type StructGc<'gc> = Gc<'gc, StructData<'gc>>;
@@ -86,7 +86,7 @@ pub enum Any<'gc> {
 #[derive(Copy, Clone)]
 pub enum AnyWeak<'gc> {
     Node(GcWeak<'gc, RefLock<NodeData<'gc>>>),
-    Leaf(GcWeak<'gc, RefLock<LeafData>>),
+    Leaf(GcWeak<'gc, LeafData>),
     Lock(GcWeak<'gc, Lock<Option<Any<'gc>>>>),
     Once(GcWeak<'gc, OnceLock<Any<'gc>>>),
     Struct(GcWeak<'gc, StructData<'gc>>),
@@ -241,9 +241,12 @@ unsafe impl<'gc> Collect<'gc> for NodeData<'gc> {
 }
 
 /// Kind 1: a type that needs no tracing (`NEEDS_TRACE = false`) behind a `RefLock`.
+/// Deliberately NOT a multiple of 8 bytes and only 4-aligned (size 12, align 4): the block layout
+/// `GcBox<LeafData>` then has trailing padding, so a `dealloc` that recomputes a padded or otherwise
+/// different layout is seen by the tracking allocator (C04: "exactly the layout it was requested with").
 pub struct LeafData {
     pub tag: DropTag,
-    pub n: u64,
+    pub n: std::cell::Cell<u8>,
 }
 unsafe impl<'gc> Collect<'gc> for LeafData {
     const NEEDS_TRACE: bool = false;
@@ -291,7 +294,7 @@ pub type TheArena = gc_arena::Arena<Rootable![Root<'_>]>;
 
 pub enum AnyHandle {
     Node(DynamicRoot<Rootable![RefLock<NodeData<'_>>]>),
-    Leaf(DynamicRoot<Rootable![RefLock<LeafData>]>),
+    Leaf(DynamicRoot<Rootable![LeafData]>),
     Lock(DynamicRoot<Rootable![Lock<Option<Any<'_>>>]>),
     Once(DynamicRoot<Rootable![OnceLock<Any<'_>>]>),
     Struct(DynamicRoot<Rootable![StructData<'_>]>),
